@@ -12,12 +12,12 @@ import (
 // box landed (the ground truth for C11).
 type Box struct {
 	Type    string
-	Large   bool    // 64-bit size form
-	Full    bool    // FullBox: 4 bytes version/flags precede the payload
-	VerFlag uint32  //
-	UUID    []byte  // for 'uuid' boxes: 16 bytes after the header
-	Pre     []byte  // fixed bytes before children (after Full/UUID)
-	Payload []byte  // leaf payload (if no Kids)
+	Large   bool   // 64-bit size form
+	Full    bool   // FullBox: 4 bytes version/flags precede the payload
+	VerFlag uint32 //
+	UUID    []byte // for 'uuid' boxes: 16 bytes after the header
+	Pre     []byte // fixed bytes before children (after Full/UUID)
+	Payload []byte // leaf payload (if no Kids)
 	Kids    []*Box
 	Post    []byte // bytes after the children (slack inside the box, < 8 bytes or junk)
 
